@@ -64,3 +64,20 @@ func (l Layout) Blocks() (flushes, rotations int) {
 	}
 	return
 }
+
+// Segments returns the half-open event index ranges [from,to) that end up in the same segment.
+func (l Layout) Segments() [][2]int {
+	var out [][2]int
+	start, pos := 0, 0
+	for i, b := range l.Batches {
+		pos += b
+		if l.Rotate[i] {
+			out = append(out, [2]int{start, pos})
+			start = pos
+		}
+	}
+	if pos > start {
+		out = append(out, [2]int{start, pos})
+	}
+	return out
+}
